@@ -24,6 +24,8 @@ type Ctx struct {
 	errTextLen *fold.Int
 	cacheNF    []nfPath
 	cacheNFL   *readerLayout
+	ownerMap   map[string]string
+	fb         foldBounds
 }
 
 // Property describes one property check.
